@@ -222,7 +222,8 @@ func runCase(dir string, n int, line string) (res string) {
 		}
 		cctx, cancel := opTimeout(opi)
 		switch f[0] {
-		case "call":
+		case "call", "slowcall":
+			slow := f[0] == "slowcall" // a client that takes its time between replies
 			flags, _ := strconv.ParseUint(f[1], 10, 64)
 			nrecv, _ := strconv.Atoi(f[4])
 			recv, err := conn.Send(cctx, string(vt.Unhex(f[2])), hs.ParseValue(f[3]), flags)
@@ -245,6 +246,9 @@ func runCase(dir string, n int, line string) (res string) {
 			parts := []string{"send=ok"}
 			for i := 0; i < nrecv; i++ {
 				var raw json.RawMessage
+				if slow {
+					time.Sleep(40 * time.Millisecond)
+				}
 				rctx, rcancel := opTimeout(opi)
 				fl, err := recv(rctx, &raw)
 				rcancel()
